@@ -92,8 +92,6 @@ def replay_graph(run, cfg, geoms, limit):
             ids = ["m%d" % i for i in want[1]]
             exp_seq = None
             ok = out["kind"] == "product" and sorted(out["unused"]) == sorted("m%d" % i for i in want[2]["__set__"])
-        elif want[0] == "DuplicateModules" and any(m["s"] == "p" for m in st["mods"]) and not _dup_without_pal(st):
-            ok = out["kind"] == "product" or out["exc"] == "DuplicateModules"        # palindromic start: either reading
         else:
             ok = out["exc"] == want[0]
             if ok and want[0] == "MissingModule":
